@@ -1747,6 +1747,24 @@ class Interp:
     def do_call(self, fn: T, args: List[T], kwargs: List[Tuple[str, T]],
                 node, frame: Frame, live: T) -> T:
         self.stats["calls"] += 1
+        cands = self._table_callees(fn)
+        if cands is not None:
+            # the callee is a component of the element of a table that was
+            # put together at run time (conditional appends of literal
+            # tuples): one call per possible element, the element's other
+            # components substituted in the arguments
+            el, k, rows = cands
+            out = None
+            for j, row in reversed(list(enumerate(rows))):
+                sub_ = lambda t, row=row: t.map(
+                    lambda x: row if x is el else None)
+                choice = T("choice", el, j)
+                r = self.do_call(
+                    row.args[k], [self._refold(sub_(a)) for a in args],
+                    [(kw, self._refold(sub_(v))) for kw, v in kwargs], node,
+                    frame, tm.mk_and(live, choice))
+                out = r if out is None else tm.ite(choice, r, out)
+            return out
         if fn.op == "attr" and fn.args[1] == "format" and not kwargs and \
                 tm.is_const(fn.args[0]) and \
                 isinstance(fn.args[0].args[1], str):
@@ -2008,6 +2026,61 @@ class Interp:
             if fnode is not None and isinstance(fnode, ast.Attribute):
                 self._rebind(fnode.value, new, frame, live)
         return result_term
+
+    def _refold(self, t: T) -> T:
+        """subscripts of literal tuples that a substitution exposed"""
+        def rw(x: T):
+            if x.op == "sub" and x.args[0].op in ("tuple", "list") and \
+                    tm.is_const(x.args[1]) and \
+                    type(tm.const_val(x.args[1])) is int and \
+                    -len(x.args[0].args) <= tm.const_val(x.args[1]) < \
+                    len(x.args[0].args):
+                return x.args[0].args[tm.const_val(x.args[1])]
+            return None
+        return t.map(rw)
+
+    def _table_callees(self, fn: T):
+        """(element term, component, rows) if `fn` is component k of the
+        generic element of a list that consists of appended literal tuples
+        whose k-th components are all functions of the analysed program"""
+        if not (fn.op == "sub" and tm.is_const(fn.args[1]) and
+                type(tm.const_val(fn.args[1])) is int and
+                fn.args[0].op == "elem"):
+            return None
+        el, k = fn.args[0], tm.const_val(fn.args[1])
+        rows: List[T] = []
+
+        def items(x: T, depth=0) -> bool:
+            x = self.unname(x)
+            if depth > 12:
+                return False
+            if x.op in ("list", "tuple"):
+                for r in x.args:
+                    if r.op == "star":
+                        return False
+                    if not any(r is q for q in rows):
+                        rows.append(r)
+                return True
+            if x.op == "mut" and x.args[1] == "append" and \
+                    len(x.args[2]) == 1:
+                if not items(x.args[0], depth + 1):
+                    return False
+                r = x.args[2][0]
+                if not any(r is q for q in rows):
+                    rows.append(r)
+                return True
+            if x.op == "ite":
+                return items(x.args[1], depth + 1) and \
+                    items(x.args[2], depth + 1)
+            return False
+        if not items(el.args[0]) or not rows or len(rows) > 6:
+            return None
+        for r in rows:
+            r = self.unname(r)
+            if r.op != "tuple" or not (0 <= k < len(r.args)) or \
+                    r.args[k].op not in ("func", "cls", "global"):
+                return None
+        return el, k, [self.unname(r) for r in rows]
 
     def _fold_isinstance(self, obj: T, types: T, frame: Frame
                          ) -> Optional[bool]:
